@@ -478,7 +478,25 @@ def enc_ndbc(p, seed):
     return ds, T, kwargs
 
 
-ENCODERS = {"ww3": enc_ww3, "ncswan": enc_ncswan, "wwm": enc_wwm, "era5": enc_era5, "ndbc": enc_ndbc}
+_ENC = {"ww3": enc_ww3, "ncswan": enc_ncswan, "wwm": enc_wwm, "era5": enc_era5, "ndbc": enc_ndbc}
+
+
+def _encode(kind):
+    """Encoder of a convention; with p['cattrs'] == 'none' every variable, coordinate and global attribute is removed from the native
+    dataset (the statement lets the reader identify the convention from the *variables*; units come with the convention, so a dataset
+    whose metadata was stripped on the way - rebuilt in memory, passed through a tool that drops attributes - converts the same)."""
+    def enc(p, seed):
+        ds, T, kwargs = _ENC[kind](p, seed)
+        if p.get("cattrs") == "none":
+            ds = ds.copy()
+            ds.attrs = {}
+            for v in ds.variables.values():
+                v.attrs = {}
+        return ds, T, kwargs
+    return enc
+
+
+ENCODERS = {k: _encode(k) for k in _ENC}
 
 
 def self_test(kind, T):
@@ -811,7 +829,7 @@ def cases(tier, seed):
                             for pat in pats:
                                 n += 1
                                 p = dict(fam="grid", kind=kind, nt=nt, ns=ns, nf=nf, nd=nd, order=order, dtype=dtype, pattern=pat,
-                                         backing="numpy", wrot=n % 16)
+                                         backing="numpy", wrot=n % 16, cattrs=["full", "none"][(n // 4) % 2])
                                 if kind == "ww3":
                                     p.update(opt=WW3_OPT + ["cur"], lonlat=LONLAT[n % 3])
                                 elif kind == "ncswan":
@@ -829,7 +847,7 @@ def cases(tier, seed):
                             for pat in pats:
                                 n += 1
                                 out.append(dict(fam="grid", kind="era5", grid="custom", nt=nt, nlat=nla, nlon=nlo, nf=nf, nd=nd, order=order,
-                                                dtype=dtype, pattern=pat, backing="numpy"))
+                                                dtype=dtype, pattern=pat, backing="numpy", cattrs=["full", "none"][(n // 2) % 2]))
     # ERA5 on its documented 30 x 24 grid (no freqs/dirs arguments: the reader supplies the coordinates)
     for nt in (1, 2):
         for (nla, nlo) in ((1, 1), (1, 2), (2, 1)) + (((2, 2),) if thorough else ()):
@@ -848,8 +866,9 @@ def cases(tier, seed):
                                         backing=bk, opt=opt, lonlat=ll, wrot=3))
                     for opt in powerset(SWAN_OPT):
                         for rr in ("0_2pi", "-pi_pi", "pi2_5pi2", "-5pi2_-pi2"):
-                            out.append(dict(fam="options", kind="ncswan", nt=nt, ns=ns, nf=nf, nd=nd, order=order, dtype=dtype, pattern="ramp",
-                                            backing=bk, opt=opt, lonlat=ll, radrange=rr, wrot=5))
+                            for ca in ("full", "none"):
+                                out.append(dict(fam="options", kind="ncswan", nt=nt, ns=ns, nf=nf, nd=nd, order=order, dtype=dtype, pattern="ramp",
+                                                backing=bk, opt=opt, lonlat=ll, radrange=rr, wrot=5, cattrs=ca))
                 for opt in powerset(WWM_OPT + ["HS"]):
                     for acd in ("freq_first", "dir_first"):
                         out.append(dict(fam="options", kind="wwm", nt=nt, ns=ns, nf=nf, nd=nd, order=order, dtype=dtype, pattern="ramp",
@@ -941,7 +960,7 @@ def run(rep, tier, seed, parts=None):
         "complete enumeration of native datasets written by independent encoders from a physical truth E(f,theta_from) with a distinct "
         "value in every bin: family 'grid' = {WW3, SWAN-nc, WWM} x nt,nsite in 1..3 x nf in {2,3} x nd in {4,6} x 6 direction orders "
         "(ascending, half-bin offset, descending, rotated, WW3-style descending-rotated, odd offset) x {float64,float32} (all optional "
-        "variables present; value pattern / lonlat layout / radian range / AC dim order cycled in the quick tier, every value pattern in "
+        "variables present; every dataset of the grid family alternately with and without any attribute metadata (units, standard names, global attributes stripped; SWAN options family: both for every radian range); value pattern / lonlat layout / radian range / AC dim order cycled in the quick tier, every value pattern in "
         "the thorough tier) and ERA5 (custom freqs/dirs) x nt 1..3 x lat/lon sizes; 'era5-default' = the documented 30x24 grid without "
         "freqs/dirs arguments x missing-value patterns x backing; 'options' = every subset of optional variables x 4 lon/lat layouts "
         "(with time axis constant/varying, station only, absent) x backing {numpy, read-only numpy, dask} x dtype; 'wind' = 16 rotations "
